@@ -39,6 +39,7 @@ type c55Script struct {
 	ExpStatus int      `json:"exp_status"`
 	ExpSnap   []int    `json:"exp_snap"`
 	idx       int
+	big       int // file size choice made by the selection: 0 by script number, 1 the (first faulted) file is large, -1 all files small
 }
 
 // ---------------------------------------------------------------- fault-injecting file system
@@ -48,7 +49,65 @@ type c55FS struct {
 	mu        sync.Mutex
 	faults    map[string]string // absolute path -> fault class
 	eioAt     map[string]int    // absolute path -> number of bytes served before EIO (read_eio)
+	piece     map[string]int    // absolute path -> bytes per Read call of the "short" read classes
+	kinds     map[string]string // absolute path -> kind of the item (swap classes)
+	side      string            // directory outside the source tree: swapped-out originals, symlink targets
 	delivered map[string]bool
+	trouble   []string // harness trouble (a swap that could not be carried out)
+	nswap     int
+}
+
+func newC55FS(side string) *c55FS {
+	return &c55FS{faults: map[string]string{}, eioAt: map[string]int{}, piece: map[string]int{}, kinds: map[string]string{},
+		delivered: map[string]bool{}, side: side}
+}
+
+// c55ReadCall decodes a class "read_k<k>_<once|pers>_<whole|short>".
+func c55ReadCall(class string) (k int, pers, short, ok bool) {
+	if !strings.HasPrefix(class, "read_k") {
+		return 0, false, false, false
+	}
+	parts := strings.Split(class[len("read_k"):], "_")
+	if len(parts) != 3 || len(parts[0]) != 1 || parts[0][0] < '1' || parts[0][0] > '9' {
+		return 0, false, false, false
+	}
+	return int(parts[0][0] - '0'), parts[1] == "pers", parts[2] == "short", true
+}
+
+// swap exchanges the item abs on the real file system (called right before restic reopens it for reading).
+func (f *c55FS) swap(abs, class, kind string) error {
+	f.mu.Lock()
+	f.nswap++
+	n := f.nswap
+	f.mu.Unlock()
+	if err := os.Rename(abs, filepath.Join(f.side, fmt.Sprintf("orig-%d", n))); err != nil {
+		return err
+	}
+	switch class {
+	case "swap_symlink_same":
+		tgt := filepath.Join(f.side, fmt.Sprintf("tgt-%d", n))
+		if kind == "dir" {
+			if err := os.Mkdir(tgt, 0o755); err != nil {
+				return err
+			}
+			if err := os.WriteFile(filepath.Join(tgt, "inside"), []byte("file inside the directory the link points to"), 0o644); err != nil {
+				return err
+			}
+		} else if err := os.WriteFile(tgt, []byte("content of the file the link points to"), 0o644); err != nil {
+			return err
+		}
+		return os.Symlink(tgt, abs)
+	case "swap_symlink_dangling":
+		return os.Symlink("nowhere", abs)
+	case "swap_dir":
+		if err := os.Mkdir(abs, 0o755); err != nil {
+			return err
+		}
+		return os.WriteFile(filepath.Join(abs, "inside"), []byte("file inside the new directory"), 0o644)
+	case "swap_file":
+		return os.WriteFile(abs, []byte("a file where a directory was"), 0o644)
+	}
+	return fmt.Errorf("unknown swap class %q", class)
 }
 
 func (f *c55FS) class(name string) (string, string) {
@@ -107,9 +166,25 @@ type c55File struct {
 	class    string
 	readable bool
 	nread    int
+	calls    int // Read calls so far
 }
 
 func (c *c55File) MakeReadable() error {
+	if strings.HasPrefix(c.class, "swap_") {
+		// the item was listed and lstat()ed; it is exchanged now, before it is opened for reading
+		if err := c.fs.swap(c.abs, c.class, c.fs.kinds[c.abs]); err != nil {
+			c.fs.mu.Lock()
+			c.fs.trouble = append(c.fs.trouble, fmt.Sprintf("%s %s: %v", c.class, c.abs, err))
+			c.fs.mu.Unlock()
+		} else {
+			c.fs.hit(c.abs)
+		}
+		err := c.File.MakeReadable()
+		if err == nil {
+			c.readable = true
+		}
+		return err
+	}
 	switch c.class {
 	case "openread_err":
 		c.fs.hit(c.abs)
@@ -182,6 +257,17 @@ func (c *c55File) ToNode(ignoreXattrListError bool, warnf func(format string, ar
 }
 
 func (c *c55File) Read(p []byte) (int, error) {
+	if k, pers, short, ok := c55ReadCall(c.class); ok {
+		c.calls++
+		if c.calls == k || (pers && c.calls > k) {
+			c.fs.hit(c.abs)
+			return 0, c55Err("read", c.name, syscall.EIO)
+		}
+		if m := c.fs.piece[c.abs]; short && m > 0 && len(p) > m {
+			p = p[:m]
+		}
+		return c.File.Read(p)
+	}
 	switch c.class {
 	case "read_eio0":
 		c.fs.hit(c.abs)
@@ -203,9 +289,18 @@ func (c *c55File) Read(p []byte) (int, error) {
 }
 
 func (c *c55File) Readdirnames(n int) ([]string, error) {
-	if c.class == "readdir_err" {
+	switch c.class {
+	case "readdir_err":
 		c.fs.hit(c.abs)
 		return nil, c55Err("readdirent", c.name, syscall.EIO)
+	case "readdir_partial":
+		// the listing breaks in the middle: like os.File.Readdirnames, the names read so far come with the error
+		names, err := c.File.Readdirnames(n)
+		if err != nil {
+			return names, err
+		}
+		c.fs.hit(c.abs)
+		return names[:(len(names)+1)/2], c55Err("readdirent", c.name, syscall.EIO)
 	}
 	return c.File.Readdirnames(n)
 }
@@ -355,8 +450,120 @@ func c55Load(t testing.TB) []*c55Script {
 	return all
 }
 
+// c55SingleKey is "kind:fault" of the faulted item of a single-fault script; onTarget: that item is a command-line target.
+func c55SingleKey(s *c55Script) (key string, onTarget bool) {
+	for i, f := range s.Fault {
+		if f != "none" {
+			return s.Kind[i] + ":" + f, s.Parent[i] == 0
+		}
+	}
+	return "", false
+}
+
+// c55BigItem chooses the item that gets a large file (1.3 MB: several chunks, several read-buffer fills), 0 = none:
+// the first faulted file, else the first file.
+func c55BigItem(s *c55Script) int {
+	want := s.big > 0 || (s.big == 0 && s.idx%3 == 0)
+	if !want {
+		return 0
+	}
+	first := 0
+	for i, k := range s.Kind {
+		if k != "file" || s.Fault[i] == "target_missing" {
+			continue
+		}
+		if s.Fault[i] != "none" {
+			return i + 1
+		}
+		if first == 0 {
+			first = i + 1
+		}
+	}
+	return first
+}
+
+func c55HasSwap(s *c55Script) bool {
+	for _, f := range s.Fault {
+		if strings.HasPrefix(f, "swap_") {
+			return true
+		}
+	}
+	return false
+}
+
+// c55Select chooses the scripts of this run.
+// thorough: every clean script, a seeded half of the single-fault scripts and an eighth of the pairs;
+// quick: a seeded choice that covers every (item kind, fault class) of the alphabet: per class one single-fault
+// script with the fault below the target directory and one with the fault on a second command-line target
+// (different shapes / positions for different seeds; one of the two with a large file when the item is a file),
+// a few clean scripts and pairs.
+func c55Select(all []*c55Script, seed int64) []*c55Script {
+	var sel []*c55Script
+	if kit.Thorough() {
+		for _, s := range all {
+			h := uint64(s.idx)*2654435761 + uint64(seed)*40503
+			h ^= h >> 13
+			if s.Group == "clean" || (s.Group == "single" && h%2 == 0) || (s.Group == "pair" && h%8 == 0) {
+				sel = append(sel, s)
+			}
+		}
+		return sel
+	}
+	const nClean, nPair = 3, 20
+	rng := kit.Rand(5501)
+	byKey := map[string][]*c55Script{}
+	byKeyT := map[string][]*c55Script{}
+	var keys []string
+	var clean, pairs []*c55Script
+	for _, s := range all {
+		switch s.Group {
+		case "clean":
+			clean = append(clean, s)
+		case "pair":
+			pairs = append(pairs, s)
+		case "single":
+			k, onTarget := c55SingleKey(s)
+			if len(byKey[k])+len(byKeyT[k]) == 0 {
+				keys = append(keys, k)
+			}
+			if onTarget {
+				byKeyT[k] = append(byKeyT[k], s)
+			} else {
+				byKey[k] = append(byKey[k], s)
+			}
+		}
+	}
+	sort.Strings(keys)
+	take := func(l []*c55Script, n int) []*c55Script {
+		rng.Shuffle(len(l), func(i, j int) { l[i], l[j] = l[j], l[i] })
+		if n > len(l) {
+			n = len(l)
+		}
+		sel = append(sel, l[:n]...)
+		return l[:n]
+	}
+	take(clean, nClean)
+	for n, k := range keys {
+		var two []*c55Script
+		if len(byKeyT[k]) > 0 && len(byKey[k]) > 0 {
+			two = append(take(byKey[k], 1), take(byKeyT[k], 1)...)
+		} else {
+			two = take(append(byKey[k], byKeyT[k]...), 2)
+		}
+		for i, s := range two {
+			s.big = -1
+			if (i+n+int(seed))%2 == 0 {
+				s.big = 1
+			}
+		}
+	}
+	take(pairs, nPair)
+	sort.Slice(sel, func(i, j int) bool { return sel[i].idx < sel[j].idx })
+	return sel
+}
+
 func TestVerif_C55(t *testing.T) {
-	res := kit.NewResult("one case = one run of the real backup command on a TLC-enumerated (tree shape, fault assignment, parent mode) script; distinct by (mode, shape, delivered fault classes and positions); non-trivial when at least one fault was delivered to restic")
+	res := kit.NewResult("one case = one run of the real backup command on a TLC-enumerated (tree shape, fault assignment, run mode) script; distinct by (mode, shape, delivered fault classes and positions); non-trivial when at least one fault was delivered to restic")
 	recs := kit.NewNDJSON("recs.ndjson")
 	defer recs.Close()
 	all := c55Load(t)
@@ -364,31 +571,32 @@ func TestVerif_C55(t *testing.T) {
 		t.Fatalf("only %d scripts", len(all))
 	}
 	seed := kit.Seed()
-	// selection: thorough = every clean script, a seeded half of the single-fault scripts and an eighth of the pairs;
-	// quick = about 1 in 40 by a seeded hash
-	var sel []*c55Script
-	for _, s := range all {
-		h := uint64(s.idx)*2654435761 + uint64(seed)*40503
-		h ^= h >> 13
-		if kit.Thorough() {
-			if s.Group == "clean" || (s.Group == "single" && h%2 == 0) || (s.Group == "pair" && h%8 == 0) {
-				sel = append(sel, s)
-			}
-		} else if h%40 == 0 {
-			sel = append(sel, s)
-		}
-	}
+	sel := c55Select(all, seed)
 	res.Count("scripts_in_table", len(all))
 	res.Count("scripts_selected", len(sel))
+	classes := map[string]bool{}
+	for _, s := range sel {
+		if s.Group == "single" {
+			k, _ := c55SingleKey(s)
+			classes[k] = true
+		}
+	}
+	res.Count("single_fault_classes_selected", len(classes))
 
 	defer func() { backupFSTestHook = nil }()
 	var e *vEnv
 	runs := 0
-	for _, s := range sel {
-		// mode: every script without parent; additionally with a parent snapshot for a seeded third (thorough: fifth)
+	for n, s := range sel {
+		// mode: every script without parent; additionally on top of a parent snapshot of the unfaulted tree for a
+		// seeded part, and with --skip-if-unchanged on top of a parent taken under the same faults for another part
 		modes := []string{"noparent"}
-		if (s.idx+int(seed))%kit.Pick(3, 5) == 0 {
+		switch (n + int(seed)) % kit.Pick(4, 5) {
+		case 0:
 			modes = append(modes, "parent")
+		case 1:
+			if !c55HasSwap(s) { // a swap changes the tree for good: the second run would see another tree
+				modes = append(modes, "skip")
+			}
 		}
 		for _, mode := range modes {
 			if e == nil || runs%120 == 0 {
@@ -409,25 +617,48 @@ func TestVerif_C55(t *testing.T) {
 	res.Save("")
 }
 
+// c55Faulty builds the fault-injecting file system for script s materialised as tr.
+func c55Faulty(tr *c55Tree, s *c55Script, side string) *c55FS {
+	ffs := newC55FS(side)
+	for i := 1; i < len(tr.rel); i++ {
+		if f := s.Fault[i-1]; f != "none" && f != "target_missing" {
+			abs := filepath.Join(tr.base, tr.rel[i])
+			ffs.faults[abs] = f
+			ffs.kinds[abs] = s.Kind[i-1]
+			ffs.eioAt[abs] = tr.sizes[i] / 2
+			ffs.piece[abs] = 64 // a small file arrives in 3..8 Read calls
+			if tr.sizes[i] > 1000000 {
+				ffs.eioAt[abs] = tr.sizes[i] - 70000 // after at least one full chunk was cut and uploaded
+				ffs.piece[abs] = 64 * 1024
+			}
+		}
+	}
+	return ffs
+}
+
 func c55RunInproc(t testing.TB, e *vEnv, s *c55Script, mode string, run int, res *kit.Result, recs *kit.NDJSON) {
 	base, err := os.MkdirTemp(e.base, "src-")
 	if err != nil {
 		t.Fatal(err)
 	}
 	defer os.RemoveAll(base)
-	big := 0
-	if len(s.Kind) == 8 && s.idx%3 == 0 {
-		for i, k := range s.Kind {
-			if k == "file" {
-				big = i + 1
-				break
-			}
-		}
+	side := base + ".side"
+	if err := os.Mkdir(side, 0o755); err != nil {
+		t.Fatal(err)
 	}
-	tr := c55Materialise(t, base, s, big)
+	defer os.RemoveAll(side)
+	tr := c55Materialise(t, base, s, c55BigItem(s))
 	host := fmt.Sprintf("h%d", run)
 	opts := BackupOptions{Host: host, NoScan: true}
-	if mode == "parent" {
+	hook := func(ffs *c55FS) {
+		backupFSTestHook = func(inner fs.FS) fs.FS {
+			ffs.FS = inner
+			return ffs
+		}
+	}
+	parentID := ""
+	switch mode {
+	case "parent":
 		backupFSTestHook = nil
 		err := e.backup(base, tr.targets, opts)
 		if err != nil && err != ErrInvalidSourceData {
@@ -443,22 +674,33 @@ func c55RunInproc(t testing.TB, e *vEnv, s *c55Script, mode string, run int, res
 				}
 			}
 		}
-	}
-	ffs := &c55FS{faults: map[string]string{}, eioAt: map[string]int{}, delivered: map[string]bool{}}
-	for i := 1; i < len(tr.rel); i++ {
-		if f := s.Fault[i-1]; f != "none" && f != "target_missing" {
-			abs := filepath.Join(base, tr.rel[i])
-			ffs.faults[abs] = f
-			ffs.eioAt[abs] = tr.sizes[i] / 2
-			if tr.sizes[i] > 1000000 {
-				ffs.eioAt[abs] = tr.sizes[i] - 70000 // after at least one full chunk was cut and uploaded
+	case "skip":
+		// the parent is taken from the same source under the same faults; nothing changes afterwards
+		old := map[string]bool{}
+		for _, id := range e.snapshotIDs() {
+			old[id] = true
+		}
+		hook(c55Faulty(tr, s, side))
+		err := e.backup(base, tr.targets, opts)
+		backupFSTestHook = nil
+		if err != nil && err != ErrInvalidSourceData {
+			// judged by the noparent run of the same script
+			res.Count("skip_mode_first_run_failed", 1)
+			return
+		}
+		for _, id := range e.snapshotIDs() {
+			if !old[id] {
+				parentID = id
 			}
 		}
+		if parentID == "" {
+			res.Count("skip_mode_first_run_without_snapshot", 1)
+			return
+		}
+		opts.SkipIfUnchanged = true
 	}
-	backupFSTestHook = func(inner fs.FS) fs.FS {
-		ffs.FS = inner
-		return ffs
-	}
+	ffs := c55Faulty(tr, s, side)
+	hook(ffs)
 	before := map[string]bool{}
 	for _, id := range e.snapshotIDs() {
 		before[id] = true
@@ -467,6 +709,12 @@ func c55RunInproc(t testing.TB, e *vEnv, s *c55Script, mode string, run int, res
 	berr := e.backup(base, tr.targets, opts)
 	res.Count("ms_backup", int(time.Since(t0).Milliseconds()))
 	backupFSTestHook = nil
+	for _, tb := range ffs.trouble {
+		res.Problem("script %d (%s): swap failed: %s", s.idx, mode, tb)
+	}
+	if len(ffs.trouble) > 0 {
+		return
+	}
 	status := c55Status(berr)
 	delivered := make([]bool, len(s.Kind))
 	for i := 1; i < len(tr.rel); i++ {
@@ -478,9 +726,17 @@ func c55RunInproc(t testing.TB, e *vEnv, s *c55Script, mode string, run int, res
 	}
 	t1 := time.Now()
 	saved, insnap, extra, contentOK, hasParent, detail := c55Snapshot(e, before, tr, s)
+	skipped := false
+	if mode == "skip" && !saved && detail == "0 new snapshots" {
+		// --skip-if-unchanged and no new snapshot: the tree is said to equal the parent's; look at the parent
+		skipped = true
+		_, insnap, extra, contentOK, _, detail = c55SnapshotOf(e, parentID, tr, s)
+		detail = "skipped; parent: " + detail
+		res.Count("skip_mode_snapshot_skipped", 1)
+	}
 	res.Count("ms_inspect", int(time.Since(t1).Milliseconds()))
-	if mode == "parent" && saved && !hasParent {
-		res.Problem("script %d: parent mode but the snapshot has no parent", s.idx)
+	if mode != "noparent" && saved && !hasParent {
+		res.Problem("script %d: %s mode but the snapshot has no parent", s.idx, mode)
 	}
 	pred := c55Predicted(s)
 	asPlanned := true
@@ -504,11 +760,16 @@ func c55RunInproc(t testing.TB, e *vEnv, s *c55Script, mode string, run int, res
 		}
 	}
 	rec := map[string]any{"mode": "inproc-" + mode, "script": s.idx, "group": s.Group, "items": c55Items(s, delivered), "status": status,
-		"saved": saved, "insnap": insnap, "extra": extra, "content_ok": contentOK, "err": errText, "detail": detail, "key": c55Key(s, delivered)}
+		"saved": saved, "skipped": skipped, "insnap": insnap, "extra": extra, "content_ok": contentOK, "err": errText, "detail": detail, "key": c55Key(s, delivered)}
 	recs.Write(rec)
 	res.Count("runs_inproc_"+mode, 1)
 	res.Count(fmt.Sprintf("status_%d", status), 1)
 	k := c55Key(s, delivered)
+	if k != "" {
+		for _, cl := range strings.Split(k, "+") {
+			res.Count("delivered_"+cl, 1)
+		}
+	}
 	res.Case(fmt.Sprintf("%s|%v|%v|%s|%v", mode, s.Parent, s.Kind, k, delivered), k != "")
 	if run%977 == 3 {
 		res.Sample(rec)
@@ -716,7 +977,7 @@ func c55Binary(t *testing.T, all []*c55Script, res *kit.Result, recs *kit.NDJSON
 			o = o[len(o)-300:]
 		}
 		rec := map[string]any{"mode": "binary", "script": s.idx, "group": s.Group, "items": c55Items(s, delivered), "status": status,
-			"saved": saved, "insnap": insnap, "extra": extra, "content_ok": contentOK, "err": o, "detail": detail, "key": c55Key(s, delivered),
+			"saved": saved, "skipped": false, "insnap": insnap, "extra": extra, "content_ok": contentOK, "err": o, "detail": detail, "key": c55Key(s, delivered),
 			"unprivileged": unpriv}
 		recs.Write(rec)
 		res.Count("runs_binary", 1)
